@@ -100,10 +100,14 @@ public:
     int pending_acks = 0;
     int accepted_connections = 0;
     int acks_withheld = 0;
+    // packets sent between hold() and flush() leave in one segment (they arrive in one read when the client's buffer allows)
+    void hold() { holding_ = true; held_.clear(); }
+    void flush(const ConnPtr& c) { holding_ = false; if (!held_.empty()) w_.broker_send(c, held_, -1, 0); held_.clear(); }
 
 private:
     World& w_;
     ConnPtr current_;
+    bool holding_ = false; std::string held_;
     void handle(const ConnPtr& c, BConn& b, const ref::Decoded& d, int cpkt);
     void do_connect(const ConnPtr& c, BConn& b, const ref::Packet& p, int cpkt);
     void pump_out(const ConnPtr& c);
